@@ -1,6 +1,7 @@
 package props
 
 import (
+	"bytes"
 	"fmt"
 	"os"
 	"path/filepath"
@@ -25,6 +26,177 @@ import (
 var errBacklogCustom = fmt.Errorf("backlog-custom-close-error")
 
 func runC18(c *core.Ctx) *core.Violation {
+	if c.T.Choose(6) == 5 {
+		return runC18Writers(c)
+	}
+	return runC18Single(c)
+}
+
+// runC18Writers: several goroutines write at once. "A read at offset o returns exactly the bytes that were written at o
+// onward" then means that every Write lands as one contiguous run of bytes. Each Write is a self-describing record
+// (magic, writer, sequence number, length, position-independent payload); at the end the retained window must parse as
+// a chain of whole records ending exactly at the write position, each writer's sequence numbers increasing.
+func runC18Writers(c *core.Ctx) *core.Violation {
+	t := c.T
+	c.Sub = "several-writers"
+	backend := "mem"
+	capacity := 4096 * (1 + t.Choose(3))
+	if t.Choose(8) == 7 {
+		backend = "file"
+		capacity = backlog.FileSizeAlign
+	}
+	nWriters := 2 + t.Choose(2)
+	type rec struct{ w, seq, n int }
+	plans := make([][]int, nWriters)
+	total := 0
+	maxRec := 0
+	for w := range plans {
+		k := 2 + t.Choose(8)
+		for i := 0; i < k; i++ {
+			var n int
+			switch t.Choose(4) {
+			case 0:
+				n = 9 + t.Choose(30) // small
+			case 1:
+				n = capacity/2 - t.Choose(64)
+			case 2:
+				n = capacity/4 + t.Choose(capacity/4)
+			default:
+				n = 9 + t.Choose(capacity/2-9)
+			}
+			plans[w] = append(plans[w], n)
+			total += n
+			if n > maxRec {
+				maxRec = n
+			}
+		}
+	}
+	mk := func(w, seq, n int) []byte {
+		b := make([]byte, n)
+		b[0], b[1], b[2] = 0xC1, 0x8E, byte(w)
+		b[3], b[4] = byte(seq>>8), byte(seq)
+		b[5], b[6], b[7], b[8] = byte(n>>24), byte(n>>16), byte(n>>8), byte(n)
+		for i := 9; i < n; i++ {
+			b[i] = byte(i*7 + w*31 + seq*13)
+		}
+		return b
+	}
+	c.Sample = map[string]interface{}{"sub": "several-writers", "backend": backend, "capacity": capacity, "writers": nWriters, "total": total}
+	c.Key = hashBytes([]byte(fmt.Sprint("writers", backend, capacity, plans)))
+	cfg := simrt.Config{MaxSteps: 600000, MaxSimTime: 10 * time.Hour, LockYield: map[string]bool{"pkg/libs/io/backlog/": true}, Trace: c.Trace}
+	if t.Chance(500) {
+		cfg.Sticky = 600 + t.Choose(350)
+	}
+	var viol *core.Violation
+	s := simrt.Run(c.TT, t, cfg, func(s *simrt.Sim) {
+		var bl *backlog.Backlog
+		if backend == "mem" {
+			bl = backlog.NewSize(capacity)
+		} else {
+			f, err := os.OpenFile(filepath.Join(c.TmpDir, "backlog.bin"), os.O_CREATE|os.O_RDWR|os.O_TRUNC, 0600)
+			if err != nil {
+				panic(err)
+			}
+			defer f.Close()
+			bl = backlog.NewFileBacklog(capacity, f)
+		}
+		p := s.NewProc("backlog-writers")
+		finished := 0
+		for w := range plans {
+			w := w
+			s.GoProc(p, fmt.Sprintf("writer-%d", w), func() {
+				defer func() { finished++ }()
+				for seq, n := range plans[w] {
+					b := mk(w, seq, n)
+					if got, err := bl.Write(b); err != nil || got != n {
+						if viol == nil {
+							viol = core.Violate("write-result", "several-writers", "Write(%d) by writer %d returned (%d, %v)", n, w, got, err)
+						}
+						return
+					}
+				}
+			})
+		}
+		for i := 0; i < 200 && finished < nWriters && s.Alive(p); i++ {
+			s.Sleep(100 * time.Millisecond)
+		}
+		if viol != nil {
+			return
+		}
+		if p.Panicked {
+			viol = core.Violate("go-panic", "several-writers", "Go panic: %s", firstLines(p.PanicMsg, 6))
+			return
+		}
+		if finished < nWriters {
+			viol = core.Violate("deadlock", "several-writers", "writers did not finish: %v", s.TaskStates())
+			return
+		}
+		rp, wp, err := bl.DataRange()
+		if err != nil || wp != uint64(total) {
+			viol = core.Violate("data-range", "several-writers", "DataRange()=(%d,%d,%v) after %d bytes were written by %d writers", rp, wp, err, total, nWriters)
+			return
+		}
+		win := make([]byte, wp-rp)
+		for got := 0; got < len(win); {
+			n, err := bl.ReadAt(win[got:], rp+uint64(got))
+			if err != nil || n == 0 {
+				viol = core.Violate("read-window", "several-writers", "ReadAt(%d) inside the data range [%d,%d) returned (%d, %v)", rp+uint64(got), rp, wp, n, err)
+				return
+			}
+			got += n
+		}
+		// the window starts somewhere inside (or at the start of) a record: find the first boundary from which whole,
+		// intact records chain up to the write position
+		parse := func(from int) (bool, string) {
+			lastSeq := map[int]int{}
+			i := from
+			for i < len(win) {
+				if len(win)-i < 9 || win[i] != 0xC1 || win[i+1] != 0x8E {
+					return false, fmt.Sprintf("no record header at window offset %d", i)
+				}
+				w, seq := int(win[i+2]), int(win[i+3])<<8|int(win[i+4])
+				n := int(win[i+5])<<24 | int(win[i+6])<<16 | int(win[i+7])<<8 | int(win[i+8])
+				if w >= nWriters || seq >= len(plans[w]) || plans[w][seq] != n || i+n > len(win) {
+					return false, fmt.Sprintf("record header at window offset %d does not describe a Write that was made (writer %d seq %d len %d)", i, w, seq, n)
+				}
+				want := mk(w, seq, n)
+				if !bytes.Equal(win[i:i+n], want) {
+					k := 0
+					for k < n && win[i+k] == want[k] {
+						k++
+					}
+					return false, fmt.Sprintf("the %d bytes of writer %d's Write #%d are not contiguous: foreign bytes start %d bytes into it (absolute offset %d)", n, w, seq, k, rp+uint64(i+k))
+				}
+				if ls, ok := lastSeq[w]; ok && seq != ls+1 {
+					return false, fmt.Sprintf("writer %d's Write #%d follows its Write #%d", w, seq, ls)
+				}
+				lastSeq[w] = seq
+				i += n
+			}
+			return true, ""
+		}
+		why := ""
+		ok := false
+		for from := 0; from <= maxRec && from <= len(win); from++ {
+			if good, w := parse(from); good {
+				ok = true
+				break
+			} else if from == 0 || why == "" {
+				why = w
+			}
+		}
+		if !ok {
+			viol = core.Violate("write-not-contiguous", backend, "the retained window [%d,%d) is not a chain of whole Writes: %s", rp, wp, why)
+			return
+		}
+		c.Probe("several_writers")
+	})
+	c.Absorb(s)
+	c.Nontrivial = true
+	return viol
+}
+
+func runC18Single(c *core.Ctx) *core.Violation {
 	t := c.T
 	backend := "mem"
 	capacity := 4096
@@ -520,6 +692,6 @@ func init() {
 			"behaviour of DataRange/IsValid after Close is not asserted (the statement is silent on it)",
 		},
 		RealVsStub: "real: pkg/libs/io/backlog (instrumented locks/conds), pkg/libs/errors; simulated: goroutine scheduling (simrt), clock (synctest)",
-		ProbeNames: []string{"many_wraps", "file_backend", "invalid_offset_reported", "reader_parked_at_quiescence", "close_released_parked_reader"},
+		ProbeNames: []string{"several_writers", "many_wraps", "file_backend", "invalid_offset_reported", "reader_parked_at_quiescence", "close_released_parked_reader"},
 	})
 }
